@@ -49,6 +49,10 @@ CHECKS = {
    "TLA+ laws ConcatLaw / SameLaw of Meta.tla evaluated by TLC on line-token abstractions of outputs recorded from the real library; the side condition 'A does not end inside an open code/HTML block' is read from the real parse through the verif hook event EndOfInput; workload = exhaustive pairs of short block-structure strings + document pairs + definition blocks in every spelling and placement",
    "ALL ordered pairs of the 269 (thorough: ~600) strings of length <= 3 over {'- ', '-', newline, 'a', two spaces, fence} plus hand-picked list/fence/quote endings (72k pairs), 40000 (600000) random pairs of Slots.tla / repository / mutated documents, and 6000+ (80000+) definition-mobility instances (10 definition spellings incl. <...> destinations, multi-line titles, with and without a final newline x 10 reference spellings x base documents) under core/GFM, safe/unsafe/XHTML. The open-block stack at end of input comes from the instrumented parser, so no pair is judged outside the statement's side condition. TLC evaluates the law on each distinct shape of the canonically renamed records.",
    "TLC, Json/IOUtils; hook EndOfInput (-tags verif); '[' byte = link reference syntax", "DESIGN.md 3.11, 5/C09"),
+ "C11": ("model_checking",
+   "TLA+ law SameLaw of Meta.tla evaluated by TLC on line-token abstractions of (with extension, without extension) output pairs recorded from the real library for trigger-free documents; one known finding matched by signature",
+   "Each of Strikethrough, Table, TaskList, Footnote, DefinitionList, Typographer, Linkify, CJK (simple, css3-draft, escaped-space only) is compared alone against core, on top of all the other extensions and on top of each single other extension (85 comparisons under rotating renderer/parser flags), plus extension.GFM against its four members; documents: the Slots.tla product, all strings of length <= 3 over a 22-symbol alphabet, repository examples, word x line-ending x wrapper combinations with wide and narrow characters, and 3000 (60000) mutated documents each also in a trigger-stripped variant; the statement's byte filters decide which documents count for which extension: 1.5 million law instances quick. TLC judges each distinct shape. The css3-draft behaviour next to ASCII punctuation is a recorded known finding, identified by a signature computed from the source and the difference.",
+   "TLC, Json/IOUtils; 'www.' filtered case-insensitively", "DESIGN.md 3.11, 5/C11, 6"),
 }
 
 NOT_YET = "check not built yet in this revision of /verif (see DESIGN.md section 5 for the planned TLA+ decision procedure)"
